@@ -317,7 +317,30 @@ def check_map_construction(entries):
             c.add_type(short_address=s, instance_number=address.InstanceNumber(i), instance_type=mods.get(t, t))
             ref[(s, i)] = t
         d = DeviceInstanceTypeMapper(initial=dict(ref))
-        for name, m in (("ints", a), ("address objects", b), ("module objects", c), ("initial=", d)):
+        # the table handed over as initial= may be any mapping a program keeps: dictionaries with a default hook
+        # (collections.defaultdict / Counter, a dict subclass with __missing__).  Pairs never added stay unknown
+        import collections
+
+        class Hooked(dict):
+            def __missing__(self, key):
+                return 4
+        e1 = DeviceInstanceTypeMapper(initial=collections.defaultdict(int, ref))
+        e2 = DeviceInstanceTypeMapper(initial=collections.Counter(ref))
+        e3 = DeviceInstanceTypeMapper(initial=Hooked(ref))
+        from dali import command as _c3, frame as _f3
+        for name, m in (("initial=defaultdict", e1), ("initial=Counter", e2), ("initial=dict subclass with __missing__", e3)):
+            for sx, ix in ((63 - entries[0][0], 31 - entries[0][1]), (entries[-1][0] ^ 1, entries[-1][1])):
+                if (sx, ix) in ref:
+                    continue
+                q = m.get_type(short_address=sx, instance_number=ix)
+                ev = _c3.from_frame(_f3.ForwardFrame(24, (sx << 17) | 0x8000 | (ix << 10) | 5), dev_inst_map=m)
+                if q is not None or type(ev).__name__ != "AmbiguousInstanceType" or dict(m.mapping) != ref:
+                    out.append(("C12:map-answers-for-a-pair-never-added", "map built with %s: get_type(%d,%d) = %r, the frame of "
+                                "that pair decodes as %s, the table now has %d entries (%d were given)"
+                                % (name, sx, ix, q, type(ev).__name__, len(m.mapping), len(ref))))
+                    break
+        for name, m in (("ints", a), ("address objects", b), ("module objects", c), ("initial=", d),
+                        ("initial=defaultdict", e1), ("initial=dict subclass with __missing__", e3)):
             if dict(m.mapping) != ref:
                 out.append(("C12:map-construction", "map built from %s is %r, expected %r" % (name, m.mapping, ref)))
             for (s, i), t in ref.items():
